@@ -6,22 +6,26 @@ import IceModel.Props.C04Total
   `Props/E2EBuild.lean` proves: for a batch inside the contract and the bounds, IF `serialize`
   succeeds, the file loads and the loaded segment reads as `Spec.build nc mode b` (`ReadsAs`).
   `Props/C04Total.lean` proves: `serialize` never fails on a valid description, and the segment
-  `New` hands back through `initSegmentBase` (`initSegment`, no file involved) is the loaded one
-  up to the checksum slot of the footer.  Here the two are combined:
+  `New` hands back through `initSegmentBase` (`initSegment`, no file involved) IS the segment
+  loaded memory-backed from the persisted file (since commit 6ad80a3; before it - `initSegmentV0`
+  - up to the checksum slot of the footer).  Here the two are combined:
 
     E2E_total          no hypothesis `hs`: the writer succeeds, the file loads on BOTH backings, and
                        each loaded segment reads as the specification
-    readsAs_withCrc    `ReadsAs` does not look at the checksum slot of the footer (no component of
-                       `ReadsAs` is excluded in the transfer; `Segment.CRC()` is simply not one of
-                       its observations - and it could not be: `C04_new_crc_counterexample`)
+    readsAs_withCrc    `ReadsAs` does not look at the checksum slot of the footer
     E2E_new            `initSegment K (r.toLSeg mode) = .ok nw` and `ReadsAs K (build nc mode b) nw`:
                        the segment `New` returns, read directly, answers as the specification
     SameReads          "`ld` answers every read API of `ReadsAs` as `nw` does", observation by
                        observation (same FST values, same postings records, same transcripts, …)
     E2E_new_eq_loaded  the segment `New` returns and the segment loaded from the persisted file
-                       (memory- or file-backed) are `SameReads` (and both read as the specification)
-    E2E_new_eq_loaded_mem   memory-backed: `ld = nw.withCrc …`, and every observation FUNCTION is
-                       the same function (all arguments, also outside the domain of the spec)
+                       (memory- or file-backed) are `SameReads`, both read as the specification,
+                       and have the same footer (`Segment.CRC()` included)
+    E2E_new_eq_loaded_mem   memory-backed: `ld = nw`
+    crc_same           `Segment.CRC()` of the segment `New` returns = checksum the file ends with =
+                       `CRC()` of the loaded segment (both backings)      [code after commit 6ad80a3]
+    E2E_new_v0         the pre-fix `New` (`initSegmentV0`) also read as the specification …
+    crc_v0_differs     … but reported another checksum than the loaded segment (alias, registered
+                       name: `crc_not_an_observation`) - the defect 6ad80a3 repaired
     exn_*              the example batch `exB` of `Props/E2EBuild.lean`
 
   HYPOTHESES: those of `E2E_read` minus `hs`; nothing added.
@@ -43,13 +47,24 @@ theorem readsAs_withCrc (K : Codecs) (S : AbsSeg) (ld : Loaded) (c : Nat) :
   ⟨fun h => ⟨h.fields, h.stats, h.dict, h.dictNone, h.iter, h.stored, h.dv⟩,
    fun h => ⟨h.fields, h.stats, h.dict, h.dictNone, h.iter, h.stored, h.dv⟩⟩
 
-/-- the one thing `ReadsAs` cannot contain: `Segment.CRC()`.  On the example segment of
-    `Props/C04.lean` the segment `New` returns and the loaded one report different checksums. -/
-theorem crc_not_an_observation :
-    ∃ nw ld, initSegment C04.exK C04.exL = .ok nw ∧
+/-- **before commit 6ad80a3** `Segment.CRC()` was an observable on which the segment `New`
+    returned and the loaded one disagreed (so it could not have been part of `ReadsAs`): on the
+    example segment of `Props/C04.lean` the pre-fix `New` (`initSegmentV0`) and `load` report
+    different checksums. -/
+theorem crc_v0_differs :
+    ∃ nw ld, initSegmentV0 C04.exK C04.exL = .ok nw ∧
       load true (fileOf C04.exK C04.exData C04.exFooter) = .ok ld ∧
       nw.footer.crc ≠ ld.footer.crc :=
-  ⟨_, _, C04.C04_new_crc_counterexample.1, C04.C04_new_crc_counterexample.2.1, by decide⟩
+  ⟨_, _, C04.C04_new_crc_v0_counterexample.1, C04.C04_new_crc_v0_counterexample.2.1, by decide⟩
+
+/-- registered name; refers to the PRE-FIX code (`initSegmentV0`; commit 6ad80a3 repaired
+    `newWithChunkMode`).  Alias of `crc_v0_differs`.  For the repaired `initSegment` the checksum
+    is the same on both segments: `crc_same`. -/
+theorem crc_not_an_observation :
+    ∃ nw ld, initSegmentV0 C04.exK C04.exL = .ok nw ∧
+      load true (fileOf C04.exK C04.exData C04.exFooter) = .ok ld ∧
+      nw.footer.crc ≠ ld.footer.crc :=
+  crc_v0_differs
 
 /-! ## "answers identically" -/
 
@@ -192,19 +207,36 @@ include hv hπ hrun hmode hB hsz in
     the builder's tables and the data section, no file, nothing parsed - answers every read API,
     executed on its bytes, as `Spec.build nc mode b` says: field tables and statistics,
     dictionaries, postings iterators (fresh; reused: `E2E_new_reuse`), stored fields, doc values.
-    It is memory-backed, and its footer carries the checksum of the data section. -/
+    It is memory-backed. -/
 theorem E2E_new :
     ∃ nw, initSegment K (r.toLSeg mode) = .ok nw ∧ nw.data.mem = true ∧
       ReadsAs K (build nc mode b) nw := by
   have hV := E2E_valid hv hπ hrun mode hmode hB K hsz
   obtain ⟨data, ft, hs⟩ := C04.C04_total K _ hV.toValid'
-  obtain ⟨nw, ld, hn, hl, he, _, hd, _⟩ := C04.C04_new_eq_load K _ hV data ft hs
+  obtain ⟨nw, ld, hn, hl, he, _, hd⟩ := C04.C04_new_eq_load K _ hV data ft hs
   obtain ⟨ld', hl', _, hR⟩ := E2E_read hv hπ hrun mode hmode hB K hsz hs true
   rw [hl] at hl'
   injection hl' with hl'
   subst hl'
   rw [he] at hR
-  exact ⟨nw, hn, by rw [hd], (readsAs_withCrc K _ nw _).1 hR⟩
+  exact ⟨nw, hn, by rw [hd], hR⟩
+
+include hv hπ hrun hmode hB hsz in
+/-- **E2E_new_v0.**  The segment the PRE-FIX `New` returned (`initSegmentV0`, before commit
+    6ad80a3) read as the specification too: it is the repaired one with another value in the
+    checksum slot (`C04_new_eq_v0`), which `ReadsAs` does not look at (`readsAs_withCrc`). -/
+theorem E2E_new_v0 :
+    ∃ nw0, initSegmentV0 K (r.toLSeg mode) = .ok nw0 ∧ nw0.data.mem = true ∧
+      ReadsAs K (build nc mode b) nw0 := by
+  have hV := E2E_valid hv hπ hrun mode hmode hB K hsz
+  obtain ⟨data, ft, hs⟩ := C04.C04_total K _ hV.toValid'
+  obtain ⟨nw0, ld, hn, hl, he, _, hd, _⟩ := C04.C04_new_v0_eq_load K _ hV data ft hs
+  obtain ⟨ld', hl', _, hR⟩ := E2E_read hv hπ hrun mode hmode hB K hsz hs true
+  rw [hl] at hl'
+  injection hl' with hl'
+  subst hl'
+  rw [he] at hR
+  exact ⟨nw0, hn, by rw [hd], (readsAs_withCrc K _ nw0 _).1 hR⟩
 
 /-- the iterator component of `ReadsAs`, for iterators built over a used one (any segment) -/
 theorem ReadsAs.iter_reuse {K : Codecs} {S : AbsSeg} {ld : Loaded} (h : ReadsAs K S ld)
@@ -232,70 +264,57 @@ include hv hπ hrun hmode hB hsz in
     loads to some `ld`; `nw` and `ld` both read as the specification, and `ld` gives the same
     answer as `nw` to every observation of `ReadsAs` (`SameReads`): tables and statistics, the
     dictionary of every field id, the postings list of every term, every iterator transcript,
-    every stored-fields visit, every doc-value visit sequence. -/
+    every stored-fields visit, every doc-value visit sequence.  Their footers are equal
+    (`Segment.CRC()` included; code after commit 6ad80a3). -/
 theorem E2E_new_eq_loaded :
     ∃ data ft nw, serialize K (r.toLSeg mode) = .ok (data, ft) ∧
       initSegment K (r.toLSeg mode) = .ok nw ∧ ReadsAs K (build nc mode b) nw ∧
       ∀ mem : Bool, ∃ ld, load mem (fileOf K data ft) = .ok ld ∧ ld.data.mem = mem ∧
-        ReadsAs K (build nc mode b) ld ∧ SameReads K (build nc mode b) nw ld := by
+        ReadsAs K (build nc mode b) ld ∧ SameReads K (build nc mode b) nw ld ∧
+        ld.footer = nw.footer := by
   have hV := E2E_valid hv hπ hrun mode hmode hB K hsz
   obtain ⟨data, ft, hs⟩ := C04.C04_total K _ hV.toValid'
-  obtain ⟨nw, ld, hn, hl, he, _, _, _⟩ := C04.C04_new_eq_load K _ hV data ft hs
+  obtain ⟨nw, ld, hn, hl, he, _, _⟩ := C04.C04_new_eq_load K _ hV data ft hs
+  subst he
   obtain ⟨ld', hl', hm, hR⟩ := E2E_read hv hπ hrun mode hmode hB K hsz hs true
   rw [hl] at hl'
   injection hl' with hl'
   subst hl'
-  have hRn : ReadsAs K (build nc mode b) nw := by
-    rw [he] at hR
-    exact (readsAs_withCrc K _ nw _).1 hR
-  refine ⟨data, ft, nw, hs, hn, hRn, ?_⟩
+  refine ⟨data, ft, ld, hs, hn, hR, ?_⟩
   intro mem
   cases mem with
   | true =>
-    refine ⟨ld, hl, hm, hR, ?_⟩
-    subst he
-    exact sameReads_of hRn hR (fun _ => rfl) (fun _ => DocValues.OkLe.refl _) rfl rfl
-      (fun _ _ => DocValues.OkLe.refl _)
+    exact ⟨ld, hl, hm, hR, sameReads_of hR hR (fun _ => rfl) (fun _ => DocValues.OkLe.refl _) rfl rfl
+      (fun _ _ => DocValues.OkLe.refl _), rfl⟩
   | false =>
     have hlf := load_toFile _ _ hl
     obtain ⟨ld2, hl2, hm2, hR2⟩ := E2E_read hv hπ hrun mode hmode hB K hsz hs false
     rw [hlf] at hl2
     injection hl2 with hl2
     subst hl2
-    refine ⟨_, hlf, hm2, hR2, ?_⟩
-    subst he
-    refine sameReads_of hRn hR2 ?_ (fun v => readPostings_toFile K _ v) rfl rfl
+    refine ⟨_, hlf, hm2, hR2, ?_, rfl⟩
+    refine sameReads_of hR hR2 ?_ (fun v => readPostings_toFile K _ v) rfl rfl
       (fun r0 ds => DocValues.visitAll_toFile K.dv _ dvChunk ds r0)
     intro i
     -- `dictionaryOf` succeeds on `nw` for every field id (`ReadsAs.dict` / `dictNone`)
-    have hok : ∃ o, dictionaryOf K nw i = .ok o := by
+    have hok : ∃ o, dictionaryOf K ld i = .ok o := by
       cases hf : (build nc mode b).fields[i]? with
-      | some f => obtain ⟨o, ho, _⟩ := hRn.dict i f hf; exact ⟨o, ho⟩
-      | none => exact ⟨none, hRn.dictNone i hf⟩
+      | some f => obtain ⟨o, ho, _⟩ := hR.dict i f hf; exact ⟨o, ho⟩
+      | none => exact ⟨none, hR.dictNone i hf⟩
     obtain ⟨o, ho⟩ := hok
     rw [ho]
     exact dictionaryOf_toFile K _ i o ho
 
 include hv hπ hrun hmode hB hsz in
-/-- **E2E_new_eq_loaded_mem.**  Memory-backed load: the loaded segment IS the segment `New`
-    returned with another value in the checksum slot (`nw`: CRC-32 of the data section; `ld`:
-    CRC-32 of the data section and the 40 footer-field bytes, `persistFooter`), so every
-    observation of `ReadsAs` is the same FUNCTION on both - for all arguments, also field ids,
-    FST values, offsets, document numbers the specification says nothing about. -/
+/-- **E2E_new_eq_loaded_mem** (code after commit 6ad80a3).  Memory-backed load: the loaded
+    segment IS the segment `New` returned - every component, the checksum slot included - so
+    every function of a segment gives the same result on both. -/
 theorem E2E_new_eq_loaded_mem :
     ∃ data ft nw ld, serialize K (r.toLSeg mode) = .ok (data, ft) ∧
       initSegment K (r.toLSeg mode) = .ok nw ∧ load true (fileOf K data ft) = .ok ld ∧
-      ld = nw.withCrc (K.crc.upd 0 (data ++ footerFields ft)) ∧
-      nw.footer.crc = K.crc.upd 0 data ∧
-      ld.fieldsInv = nw.fieldsInv ∧ ld.fieldDocs = nw.fieldDocs ∧ ld.fieldFreqs = nw.fieldFreqs ∧
-      ld.footer.numDocs = nw.footer.numDocs ∧ ld.footer.chunkMode = nw.footer.chunkMode ∧
-      loadedStats ld = loadedStats nw ∧
-      dictionaryOf K ld = dictionaryOf K nw ∧
-      readPostings K ld = readPostings K nw ∧
-      plbOf ld = plbOf nw ∧
-      ld.storedSeg = nw.storedSeg ∧
-      ld.dvReaders = nw.dvReaders ∧ ld.data = nw.data ∧
-      ReadsAs K (build nc mode b) nw ∧ ReadsAs K (build nc mode b) ld := by
+      ld = nw ∧
+      nw.footer.crc = K.crc.upd 0 (data ++ footerFields ft) ∧
+      ReadsAs K (build nc mode b) nw := by
   have hV := E2E_valid hv hπ hrun mode hmode hB K hsz
   obtain ⟨data, ft, hs⟩ := C04.C04_total K _ hV.toValid'
   obtain ⟨nw, ld, hn, hl, he, hf, _⟩ := C04.C04_new_eq_load K _ hV data ft hs
@@ -304,8 +323,42 @@ theorem E2E_new_eq_loaded_mem :
   injection hl' with hl'
   subst hl'
   subst he
-  exact ⟨data, ft, nw, _, hs, hn, hl, rfl, by rw [hf], rfl, rfl, rfl, rfl, rfl, rfl, rfl, rfl, rfl,
-    rfl, rfl, rfl, (readsAs_withCrc K _ nw _).1 hR, hR⟩
+  exact ⟨data, ft, ld, ld, hs, hn, hl, rfl, by rw [hf], hR⟩
+
+include hv hπ hrun hmode hB hsz in
+/-- **crc_same** (code after commit 6ad80a3).  `Segment.CRC()` of the segment `New` returns is
+    the checksum its persisted file ends with (the last four bytes, big-endian: CRC-32 of the
+    data section followed by the 40 footer-field bytes), which is what a segment loaded from that
+    file - either backing - reports. -/
+theorem crc_same :
+    ∃ data ft nw, serialize K (r.toLSeg mode) = .ok (data, ft) ∧
+      initSegment K (r.toLSeg mode) = .ok nw ∧
+      nw.footer.crc = K.crc.upd 0 (data ++ footerFields ft) ∧
+      Ice.Model.Writer.unbe ((fileOf K data ft).drop ((fileOf K data ft).length - 4)) = nw.footer.crc ∧
+      ∀ mem : Bool, ∃ ld, load mem (fileOf K data ft) = .ok ld ∧ ld.footer.crc = nw.footer.crc := by
+  have hV := E2E_valid hv hπ hrun mode hmode hB K hsz
+  obtain ⟨data, ft, hs⟩ := C04.C04_total K _ hV.toValid'
+  obtain ⟨nw, ld, hn, hl, he, hf, _⟩ := C04.C04_new_eq_load K _ hV data ft hs
+  subst he
+  have hcrc : ld.footer.crc = K.crc.upd 0 (data ++ footerFields ft) := by rw [hf]
+  refine ⟨data, ft, ld, hs, hn, hcrc, ?_, ?_⟩
+  · have h40 : (footerFields { ft with crc := K.crc.upd 0 data }).length = 40 := by
+      simp [footerFields, C11.be_length]
+    have hfile : fileOf K data ft = (data ++ footerFields { ft with crc := K.crc.upd 0 data }) ++
+        Ice.Model.Writer.be 4 (K.crc.upd (K.crc.upd 0 data)
+          (footerFields { ft with crc := K.crc.upd 0 data })) := by
+      unfold fileOf Ice.Model.Writer.persistFooter
+      rw [List.append_assoc]
+    have hlen : (fileOf K data ft).length - 4 =
+        (data ++ footerFields { ft with crc := K.crc.upd 0 data }).length := by
+      rw [(C04.C04_count K data ft).1, List.length_append, h40]
+      omega
+    rw [hcrc, hlen, hfile, List.drop_left, C11.unbe_be 4 _ (K.crc_lt _ _), K.crc.upd_append]
+    rfl
+  · intro mem
+    cases mem with
+    | true => exact ⟨ld, hl, rfl⟩
+    | false => exact ⟨_, load_toFile _ _ hl, rfl⟩
 
 end
 
@@ -331,7 +384,8 @@ theorem exn_new :
 theorem exn_new_eq_loaded :
     ∃ nw, initSegment C04.exK exL = .ok nw ∧ ReadsAs C04.exK (build C01.nc0 2 exB) nw ∧
       ∀ mem : Bool, ∃ ld, load mem (fileOf C04.exK exData exFooter) = .ok ld ∧ ld.data.mem = mem ∧
-        ReadsAs C04.exK (build C01.nc0 2 exB) ld ∧ SameReads C04.exK (build C01.nc0 2 exB) nw ld := by
+        ReadsAs C04.exK (build C01.nc0 2 exB) ld ∧ SameReads C04.exK (build C01.nc0 2 exB) nw ld ∧
+        ld.footer = nw.footer := by
   obtain ⟨data, ft, nw, hs, hn, hR, h⟩ :=
     E2E_new_eq_loaded ex_validBatch ex_perm ex_run 2 (by decide) ex_bounds C04.exK ex_sizes
   have hs' : serialize C04.exK exL = .ok (data, ft) := hs
@@ -377,10 +431,38 @@ def exCrcObs : Option ((Nat × List Nat × List Nat) × (Nat × List Nat × List
   | _, _ => none
 
 set_option maxRecDepth 100000 in
-/-- … and the one observable that differs, `Segment.CRC()`, on this example: 10372 on the segment
-    `New` returns, 10873 on the loaded one; the tables are the same -/
-theorem exn_crc : exCrcObs = some ((10372, [87, 163], [0, 23]), (10873, [87, 163], [0, 23])) := by
+/-- … `Segment.CRC()` on this example (code after commit 6ad80a3): 10873 on the segment `New`
+    returns and on the loaded one; the tables are the same -/
+theorem exn_crc : exCrcObs = some ((10873, [87, 163], [0, 23]), (10873, [87, 163], [0, 23])) := by
   decide +kernel
+
+/-- the same for the pre-fix `New` -/
+def exCrcObsV0 : Option ((Nat × List Nat × List Nat) × (Nat × List Nat × List Nat)) :=
+  match initSegmentV0 C04.exK exL, load true (fileOf C04.exK exData exFooter) with
+  | .ok nw, .ok ld => some ((nw.footer.crc, nw.dictLocs, nw.storedChunkOffsets),
+                            (ld.footer.crc, ld.dictLocs, ld.storedChunkOffsets))
+  | _, _ => none
+
+set_option maxRecDepth 100000 in
+/-- … before commit 6ad80a3 `Segment.CRC()` was the one observable that differed on this example:
+    10372 on the segment `New` returned (checksum of the data section), 10873 on the loaded one -/
+theorem exn_crc_v0 : exCrcObsV0 = some ((10372, [87, 163], [0, 23]), (10873, [87, 163], [0, 23])) := by
+  decide +kernel
+
+/-- `crc_same` on `exB` -/
+theorem exn_crc_same :
+    ∃ nw, initSegment C04.exK exL = .ok nw ∧
+      nw.footer.crc = C04.exK.crc.upd 0 (exData ++ footerFields exFooter) ∧
+      ∀ mem : Bool, ∃ ld, load mem (fileOf C04.exK exData exFooter) = .ok ld ∧
+        ld.footer.crc = nw.footer.crc := by
+  obtain ⟨data, ft, nw, hs, hn, hc, _, h⟩ :=
+    crc_same ex_validBatch ex_perm ex_run 2 (by decide) ex_bounds C04.exK ex_sizes
+  have hs' : serialize C04.exK exL = .ok (data, ft) := hs
+  rw [ex_serialize] at hs'
+  injection hs' with hs'
+  injection hs' with h1 h2
+  subst h1 h2
+  exact ⟨nw, hn, hc, h⟩
 
 end Ice.Props.E2E
 
@@ -388,7 +470,10 @@ end Ice.Props.E2E
 section Audit
 open Ice.Props.E2E
 #print axioms readsAs_withCrc
+#print axioms crc_v0_differs
 #print axioms crc_not_an_observation
+#print axioms crc_same
+#print axioms E2E_new_v0
 #print axioms sameReads_of
 #print axioms E2E_total
 #print axioms E2E_new
@@ -400,4 +485,6 @@ open Ice.Props.E2E
 #print axioms exn_new_eq_loaded
 #print axioms exn_transcript
 #print axioms exn_crc
+#print axioms exn_crc_v0
+#print axioms exn_crc_same
 end Audit
